@@ -45,7 +45,13 @@ impl Prop for C11 {
             any::<u8>(),
             any::<u8>(),
         )
-            .prop_map(|(bytes, cfg, hist, cap, fill, stride)| Case { bytes, cfg, hist, cap, fill, stride })
+            .prop_map(|(bytes, cfg, mut hist, cap, fill, stride)| {
+                // receive flow: the length probe is called on the same bytes first
+                if bytes.len() % 4 == 1 {
+                    hist.push(Op::GetLength { bytes: bytes.clone() });
+                }
+                Case { bytes, cfg, hist, cap, fill, stride }
+            })
             .boxed()
     }
     fn budget(&self, tier: Tier) -> u64 {
